@@ -20,15 +20,17 @@ func init() {
 		Explanation: "Decides on the current source: R1 each function in datatype.Decoder is classified COPY (result is a number, a string conversion, a struct, or freshly allocated storage) or ALIAS (result shares the backing array of its input); " +
 			"R2 the byte slice that flows from ReadMessage into the AVP walk has no origin in pooled or otherwise shared storage (sync.Pool.Get, package-level variables, struct fields) unless every decoder is COPY; " +
 			"R3 Header has only scalar fields and the Header stored into the returned Message is freshly allocated; " +
-			"R4 no read-path function stores a pool-derived reference into a Message/AVP/Header or package-level location, and buffers are returned to the pool only by a deferred call at ReadMessage's exit. " +
+			"R4 no read-path function stores a pool-derived reference into a Message/AVP/Header or package-level location, and buffers are returned to the pool only by a deferred call at ReadMessage's exit; " +
+			"R5 no function reachable from the write / serialise / inspect API (WriteTo*, Serialize*, Len, String, PrettyDump, FindAVP*, Unmarshal) stores into a field of the Message, Header, AVP or GroupedAVP it was given. " +
 			"The rule removes the only shared storage every concurrent history would need. Not decided: histories as executions; values an application mutates itself.",
 		Rules: map[string]string{
 			"R1": "alias classification of each datatype.Decoder entry",
 			"R2": "body bytes reaching the AVP decoder have no pooled/shared origin while ALIAS decoders exist",
 			"R3": "Header fields are scalars; the Message's Header is freshly allocated",
 			"R4": "no pool-derived reference stored into returned objects; pool release only via defer",
+			"R5": "writing / serialising / inspecting a message stores nothing into the message, its header or its AVPs",
 		},
-		MinInstances: map[string]int{"R1": 10, "R2": 1, "R3": 2, "R4": 1},
+		MinInstances: map[string]int{"R1": 10, "R2": 1, "R3": 2, "R4": 1, "R5": 1},
 		Assumptions:  []string{"sync.Pool may hand the same object to any later Get", "[]byte→string conversion copies"},
 	})
 }
@@ -238,6 +240,8 @@ func runC06(c *Ctx) {
 		})
 	}
 	r.Ok("R4", "ReadPath:no-pool-reference-retained", "-", fmt.Sprintf("%d reference stores into Message/AVP/Header/package state on the read path, none pool-derived", nst))
+	// ---- R5: read-only API ----
+	c.c06ReadOnly()
 	// release discipline
 	for _, f := range c.P.LibraryFuncs() {
 		if pkgOf(f).Path() != pkgDiam {
@@ -261,5 +265,61 @@ func runC06(c *Ctx) {
 				r.Check(isDefer, "R4", fname(g)+":release-"+f.Name(), c.pos(ci), "the pooled buffer is released by a deferred call (after the last use)", "the pooled buffer is released by a plain call: it can be reused while still referenced")
 			}
 		}
+	}
+}
+
+// c06ReadOnly: R5.
+func (c *Ctx) c06ReadOnly() {
+	r := c.R
+	var roots []*ssa.Function
+	add := func(typ string, names ...string) {
+		for _, n := range names {
+			if f := c.P.Method("diam", typ, n); f != nil {
+				roots = append(roots, f)
+			}
+		}
+	}
+	add("Message", "WriteTo", "WriteToWithRetry", "WriteToStream", "WriteToStreamWithRetry", "Serialize", "SerializeTo", "Len", "String", "PrettyDump", "FindAVP", "FindAVPs", "FindAVPsWithPath", "Unmarshal", "Dictionary", "MessageStream", "Context")
+	add("AVP", "Serialize", "SerializeTo", "Len", "String")
+	add("Header", "Serialize", "SerializeTo", "String")
+	add("GroupedAVP", "Serialize", "Len", "Padding", "Type", "String")
+	if len(roots) < 10 {
+		r.Undecided("R5", "role:read-only-api", "-", "fewer read-only API methods found than expected")
+		return
+	}
+	cl := c.reach(roots, false, false, true)
+	n, bad := 0, 0
+	for f := range cl {
+		if !c.P.IsLibrary(f) {
+			continue
+		}
+		flow.Instrs(f, func(in ssa.Instruction) {
+			st, ok := in.(*ssa.Store)
+			if !ok {
+				return
+			}
+			root, fields, ok := fieldPath(st.Addr)
+			if !ok {
+				return
+			}
+			tn, _, _, _ := flow.FieldOf(st.Addr)
+			if tn != "Message" && tn != "Header" && tn != "AVP" && tn != "GroupedAVP" {
+				return
+			}
+			n++
+			// root: parameter (or spilled parameter / loaded from one) = the caller's object
+			pr := flow.Peel(root)
+			_, isParam := pr.(*ssa.Parameter)
+			if !isParam && spilledParam(pr) == nil {
+				if u, isLoad := pr.(*ssa.UnOp); !isLoad || isFreshBase(u) {
+					return
+				}
+			}
+			bad++
+			r.Fail("R5", fmt.Sprintf("%s:store-%s.%s", fname(f), tn, strings.Join(fields, ".")), c.pos(st), "a write / serialise / inspect operation stores into the "+tn+" it was given: a retained decoded message changes when it is written or inspected later")
+		})
+	}
+	if bad == 0 {
+		r.Ok("R5", "read-only-api:no-stores", "-", fmt.Sprintf("%d functions reachable from %d read-only API methods; %d stores to Message/Header/AVP fields, none into a caller-supplied object", len(cl), len(roots), n))
 	}
 }
